@@ -79,6 +79,10 @@ func c10DDLPath(info *meta.TaskInfo, db, coll string) bool {
 	return MatchCollection(info, cis, db, coll)
 }
 
+// VerifC10_DeepHistory: longer create/delete histories over four concrete specification
+// shapes (a.c, a.*, *.c, *.*), then the symbolic probe and the bookkeeping conditions.
+func VerifC10_DeepHistory() { VerifC10_History() }
+
 // VerifC10_History: K create/delete requests on one target, then a symbolic probe.
 func VerifC10_History() {
 	K, L := vParam("K", 2), vParam("L", 1)
@@ -102,17 +106,25 @@ func VerifC10_History() {
 			sp.live = false
 			continue
 		}
-		sp := &c10Spec{coll: c10Name("spec.coll", L)}
-		useDBForm := vBool("spec.dbForm")
-		if useDBForm {
-			sp.db = c10Name("spec.db", L)
+		var sp *c10Spec
+		useDBForm := true
+		if vParam("MENU", 0) == 1 {
+			// deep histories: the specification is one of four concrete shapes, no faults
+			sp = &c10Spec{db: []string{"a", "*"}[vChoice("menu.db", 2)], coll: []string{"c", "*"}[vChoice("menu.coll", 2)]}
+			c10StartFails, f.faults = false, false
 		} else {
-			sp.db = cdcreader.DefaultDatabase
+			sp = &c10Spec{coll: c10Name("spec.coll", L)}
+			useDBForm = vBool("spec.dbForm")
+			if useDBForm {
+				sp.db = c10Name("spec.db", L)
+			} else {
+				sp.db = cdcreader.DefaultDatabase
+			}
+			// a create may fail at start, or at one store call (not both: a failing start whose
+			// clean-up also fails is a double fault outside the statement's quantifier)
+			c10StartFails = vBool("startFails")
+			f.faults = !c10StartFails
 		}
-		// a create may fail at start, or at one store call (not both: a failing start whose
-		// clean-up also fails is a double fault outside the statement's quantifier)
-		c10StartFails = vBool("startFails")
-		f.faults = !c10StartFails
 		f.nFault = 0
 		preData := append([]string(nil), cdc.collectionNames.data[uKey]...)
 		preExcl := append([]string(nil), cdc.collectionNames.excludeData[uKey]...)
